@@ -377,6 +377,10 @@ class Run:
         """Python == as python bool / z3 Bool"""
         if a is b and isinstance(a, SLazy):
             return True
+        if type(a).__name__ == "SNd" and type(b).__name__ == "SNd":
+            if a is b:
+                return True
+            return self.eq_nd(a, b)
         for h in SCALARIZE:
             ra, rb = h(self, a), h(self, b)
             a = ra if ra is not None else a
@@ -450,16 +454,20 @@ class Run:
         if type(a) != type(b):
             return False
         if type(a).__name__ == "SNd":
-            if a is b:
-                return True
-            if a.shape is None or b.shape is None or len(a.shape) != len(b.shape):
-                raise Unsupported("equality of arrays of unknown dimension")
-            self.fresh_n += 1
-            idx = [z3.Int("i!eq%d_%d" % (self.fresh_n, k)) for k in range(len(a.shape))]
-            rng = z3.And(*[z3.And(i >= 0, i < b2i(z(d))) for i, d in zip(idx, a.shape)])
-            same = zbool(self.eq(a.elem(tuple(idx)), b.elem(tuple(idx))))
-            return AND(*([cmp("==", x, y) for x, y in zip(a.shape, b.shape)] + [z3.ForAll(idx, z3.Implies(rng, same))]))
+            return self.eq_nd(a, b)
         raise Unsupported("equality of %r and %r" % (a, b))
+
+    def eq_nd(self, a, b):
+        """two n-d arrays: same shape and the same cells"""
+        if a is b:
+            return True
+        if a.shape is None or b.shape is None or len(a.shape) != len(b.shape):
+            raise Unsupported("equality of arrays of unknown dimension")
+        self.fresh_n += 1
+        idx = [z3.Int("i!eq%d_%d" % (self.fresh_n, k)) for k in range(len(a.shape))]
+        rng = z3.And(*[z3.And(i >= 0, i < b2i(z(d))) for i, d in zip(idx, a.shape)])
+        same = zbool(self.eq(a.elem(tuple(idx)), b.elem(tuple(idx))))
+        return AND(*([cmp("==", x, y) for x, y in zip(a.shape, b.shape)] + [z3.ForAll(idx, z3.Implies(rng, same))]))
 
     def seq_eq(self, a, b):
         i = z3.Int("i!seqeq")
